@@ -362,7 +362,7 @@ def r6_priority(ctx, prog):
             ctx.ob('C05.R6', '%s|fifo-put' % f.name, st['fn'] in ('push_back', 'emplace_back'), 'enqueue at the back (%s)' % st['fn'], where=f.loc(st['i']))
         # queue discipline over every function of the class: the waiting deques are only appended at the back, read/popped at the
         # front, erased by iterator (cancel) or inspected; nothing writes through an iterator / reference into them
-        allowed = {'push_back', 'emplace_back', 'front', 'pop_front', 'erase', 'empty', 'size', 'begin', 'end', 'cbegin', 'cend'}
+        allowed = {'push_back', 'emplace_back', 'front', 'pop_front', 'erase', 'empty', 'size', 'begin', 'end', 'cbegin', 'cend', 'clear', 'shrink_to_fit', 'max_size'}       # (the last three do not reorder anything)
         for f in scope_funcs(prog, cls):
             for st in f.calls():
                 if st.get('cls', '').startswith('std::deque<tbox::cabinet::Token') and st.get('fn') not in allowed and not (st.get('fn') or '').startswith('~') and not st.get('fn', '').startswith('deque'):
@@ -698,4 +698,8 @@ def run(ctx):
     ctx.guard(progress.run_files, ctx, prog, 'C05.R14', ['eventx/thread_pool.cpp', 'eventx/work_thread.cpp', 'base/cabinet.hpp', 'base/object_pool.hpp'], 'thread pool / work thread', floor=1)
     from rules import C05_replay
     ctx.guard(C05_replay.r15, ctx, prog)
+    from tbxlint import shared
+    ctx.guard(shared.rule, ctx, prog, 'C05.R16', 'A6 no state shared between pools behind their back: ThreadPool, WorkThread and their Data / Task keep no mutable static data member, '
+              'function-local static or file-scope variable — two pools (or work threads) used at the same time would touch it each under its own mutex', ['tbox::eventx::ThreadPool', 'tbox::eventx::WorkThread'],
+              ['eventx/thread_pool.cpp', 'eventx/work_thread.cpp'], {}, 20)
     return prog
